@@ -29,6 +29,7 @@ type Engine struct {
 	ghosts    map[string]*GhostVar
 	ghostOrder []string
 	lemmas    []*Lemma
+	globalInvs []*GlobalInv
 	smtLines  []string // repo-level spec theory
 	prelude   string
 	fieldInfo map[string]*FieldClass // "pkg.Type.field" -> classification (C12)
